@@ -1256,6 +1256,13 @@ def _extreme(a, axis, ismax):
     ix = _qv(a.ndim)
     rng = z3.And(*[z3.And(0 <= i, i < n) for i, n in zip(ix, a.shape_e)])
     c.assume(z3.ForAll(ix, z3.Implies(rng, a.elem(*ix) <= m if ismax else a.elem(*ix) >= m), patterns=[a.elem(*ix)] if _pat_ok(a.elem(*ix), ix) else []))
+    # ground instances of the bound at the index tuples a harness has named (`extreme_hints`): a branch on the extreme value that a
+    # precondition about ONE element decides is then decided by the quantifier-free feasibility solver - always, not only when the
+    # instantiation happens to finish within its wall-clock limit (which made the number of explored paths vary from run to run)
+    for hint in c.ghost.get('extreme_hints', ()):
+        if len(hint) == a.ndim:
+            hx = [lift(h_) for h_ in hint]
+            c.assume(z3.Implies(z3.And(*[z3.And(0 <= h_, h_ < n_) for h_, n_ in zip(hx, a.shape_e)]), a.elem(*hx) <= m if ismax else a.elem(*hx) >= m))
     return wrap(m)
 
 
